@@ -174,7 +174,8 @@ def oracle(spec, res):
             later = [r for r in res['log'] if r[0] > ex[0] and r[2] in ('resumed', 'dispatch', 'await-begin', 'await-end') and r[3] == who]
             if later:
                 out.append(V('cancelled_handler_kept_running', f'{who}: {later[:2]}'))
-            if own_deadline is not None and abs(ex[1] - own_deadline) <= EPS:
+            if own_deadline is not None and abs(ex[1] - own_deadline) <= EPS and not any(abs(ex[1] - d) <= EPS for d in enclosing):
+                # (when an enclosing handler's deadline falls on the same instant either of them may have fired first: not judged)
                 # its result must be a TimeoutError error; the remaining handlers of the event must still run
                 fe = res['final']['events'].get(ev, {})
                 r = [x for x in fe.get('results', []) if x['bus'] == bus and x['h'] == h]
